@@ -147,6 +147,17 @@ def setup(rec, tier):
 BATCHES = (1, 2, 7, 50, 400, 2000)
 
 
+def _centre_form(rng, cen, size):
+    """The centre as a caller may hand it over: a float array (most cases), a list of Python ints (whole-number position,
+    only where the shape is big enough for whole numbers to be a fair position), or not at all (the documented default)."""
+    u = rng.random()
+    if u < 0.12:
+        return np.zeros(3), "default"
+    if u < 0.3 and size >= 0.3:
+        return np.rint(cen), "python-ints"
+    return cen, "float"
+
+
 def _curved_points(rng, c, ax, n):
     ax = np.asarray(ax, float)
     u = rng.normal(size=(n, 3))
@@ -223,7 +234,9 @@ def run_case(i, rng, rec, tier, state):
         if u != 1.0:
             r, cen = r * u, cen * u
             rec.cls("curved:extreme-units")
-        s = cs.Sphere(r, cen)
+        cen, cform = _centre_form(rng, cen, r)
+        rec.cls("centre:" + cform)
+        s = cs.Sphere(r) if cform == "default" else cs.Sphere(r, cen if cform == "float" else [int(x) for x in cen])
         if aged:
             info["history"], _sib = aging.age_or_sibling(s, rng)
             r, cen = float(s.radius), np.array(s.centroid, float)
@@ -237,7 +250,10 @@ def run_case(i, rng, rec, tier, state):
         if u != 1.0:
             ax, cen = [a * u for a in ax], cen * u
             rec.cls("curved:extreme-units")
-        s = cs.Ellipsoid(ax[0], ax[1], ax[2], cen)
+        cen, cform = _centre_form(rng, cen, max(ax))
+        rec.cls("centre:" + cform)
+        s = (cs.Ellipsoid(ax[0], ax[1], ax[2]) if cform == "default"
+             else cs.Ellipsoid(ax[0], ax[1], ax[2], cen if cform == "float" else [int(x) for x in cen]))
         if aged:
             info["history"], _sib = aging.age_or_sibling(s, rng)
             ax, cen = [float(s.a), float(s.b), float(s.c)], np.array(s.centroid, float)
@@ -316,6 +332,12 @@ def run_case(i, rng, rec, tier, state):
     # the same query in the other forms an array of points takes: whole-number points as integer arrays and nested lists
     # (each call is judged by the membership monitor like any other)
     ip = np.rint(pts[rng.choice(len(pts), size=min(16, len(pts)), replace=False)])
+    if which in ("Sphere", "Ellipsoid"):
+        # whole-number lattice points all over the solid's bounding box (a lattice scan is what integer queries are used for)
+        axv_ = np.array([r, r, r] if which == "Sphere" else ax, float)
+        lo_, hi_ = np.floor(cen - axv_ - 1), np.ceil(cen + axv_ + 1)
+        if float(np.abs(np.concatenate((lo_, hi_))).max()) < 2 ** 30:
+            ip = np.vstack((ip, rng.integers(lo_, hi_ + 1, size=(48, 3)).astype(float)))
     if float(np.abs(ip).max()) < 2 ** 30:
         for form, argi in (("int64", ip.astype(np.int64)), ("int32", ip.astype(np.int32)), ("list-of-int-lists", [[int(x) for x in row] for row in ip])):
             rec.cls("form:" + form)
